@@ -29,7 +29,10 @@ static size_t slen(const char *s) { size_t n = 0; while (s[n] && n <= N + 1) n++
 int main(void) {
 	IN_LOAD();
 	size_t len = IN.len; ASSUME(len <= N);
-	char *in = malloc(len + 1); ASSUME(in != 0);          /* exact size: any over-read is out of bounds */
+	/* constant-size object (a symbolic-size one sends CBMC into array theory); the string is placed at its END so that the NUL is the
+	   last byte of the object: any read past the NUL is out of bounds, and for len == N so is any read before the start */
+	char *buf = malloc(N + 1); ASSUME(buf != 0);
+	char *in = buf + (N - len);
 	for (size_t i = 0; i < N; i++) if (i < len) { ASSUME(IN.s[i] != 0); in[i] = IN.s[i]; }
 	in[len] = 0;
 #if MODE == 0
@@ -47,13 +50,16 @@ int main(void) {
 	COVER(r + 2 <= len && r >= 3); COVER(len == N);
 #elif MODE == 1
 	ASSUME(utf8_ok((unsigned char *) in, len));
-	char *out = IN.f1 == 0 ? label_from_string(in) : clean_string(in, IN.f1 == 1, IN.f1 == 2);
-	ASSUME(IN.f1 <= 3);
+#if F1 == 0
+	char *out = label_from_string(in);
+#else
+	char *out = clean_string(in, F1 == 1, F1 == 2);
+#endif
 	CHECK(out != 0, "returns a string");
 	size_t ol = slen(out);
 	CHECK(ol <= len + 1, "no growth");
 	CHECK(utf8_ok((unsigned char *) out, ol), "valid UTF-8 in -> valid UTF-8 out (no multi-byte character split, truncated or case-mapped bytewise)");
-	COVER(IN.f1 == 0 && ol >= 3 && (unsigned char) out[0] >= 0xE0); COVER(IN.f1 == 1 && ol >= 2 && (unsigned char) out[0] >= 0xC2); COVER(IN.f1 == 2); COVER(len == N && (unsigned char) in[0] >= 0xF0);
+	COVER(ol >= 3 && (unsigned char) out[0] >= 0xE0); COVER(ol >= 2 && (unsigned char) out[0] >= 0xC2); COVER(len == N && (unsigned char) in[0] >= 0xF0);
 #elif MODE == 2
 	char *l1 = label_from_string(in);
 	CHECK(l1 != 0, "label exists");
